@@ -443,6 +443,150 @@ func joinClasses(m *model) {
 	}
 }
 
+// ---------------------------------------------------------------- iterator lifecycle
+//
+// An iterator that is opened, left unpositioned while other operations run (reads, writes, tx.Commit, a second
+// iterator opened over another prefix), and only then consumed (First/Next.../Release without interleaved ops).
+// What the unchanged code guarantees, and therefore the oracle: the MemDB parts of the join iterator are live (they
+// read the skip list when positioned) and the leveldb part is a snapshot taken at open — so as long as the STORE does
+// not change between open and First (no CommitTo) and no layer is Reset, the scan equals the model's scan AT THE TIME
+// THE ITERATOR IS POSITIONED. Store commits / Resets while an iterator is open are excluded (mixture unspecified), and
+// nothing is demanded about writes made after First.
+
+type itSpec struct{ layer, p string }
+
+func (m *model) scanOne(sp itSpec) string {
+	var b strings.Builder
+	for _, k := range rawAll {
+		if sp.layer == "tx" {
+			if strings.HasPrefix(k, pfx+sp.p) && m.txView(k) != "" {
+				fmt.Fprintf(&b, "%q=%q ", k[1:], m.txView(k))
+			}
+		} else if strings.HasPrefix(k, sp.p) && m.blkView(k) != "" {
+			fmt.Fprintf(&b, "%q=%q ", k, m.blkView(k))
+		}
+	}
+	b.WriteString("]")
+	return b.String()
+}
+
+func (w *world) open(sp itSpec) scom.StoreIterator {
+	if sp.layer == "tx" {
+		return w.tx.NewIterator([]byte(sp.p))
+	}
+	var key []byte // nil prefix = everything; the buffer is private to this iterator (OverlayDB: "param key is referenced by iterator")
+	if sp.p != "" {
+		key = []byte(sp.p)
+	}
+	return w.blk.NewIterator(key)
+}
+
+func consume(it scom.StoreIterator) string {
+	var b strings.Builder
+	scan(&b, it)
+	return b.String()
+}
+
+type between struct {
+	kind string // tx.get blk.get write open
+	key  string
+	o    op
+	sp   itSpec
+	bFirst bool // second iterator consumed before the first one
+}
+
+func (bt between) String() string {
+	switch bt.kind {
+	case "tx.get", "blk.get":
+		return fmt.Sprintf("%s(%q)", bt.kind, bt.key)
+	case "write":
+		return bt.o.String()
+	}
+	return fmt.Sprintf("open %s.NewIterator(%q) consumedFirst=%v", bt.sp.layer, bt.sp.p, bt.bFirst)
+}
+
+func (bt between) class() string {
+	switch bt.kind {
+	case "write":
+		return bt.o.layer + "." + bt.o.kind
+	case "open":
+		return "open-" + bt.sp.layer
+	}
+	return bt.kind
+}
+
+var lifeCases atomic.Int64
+
+func lifecycle(init map[string]string, m *model, path []string, specs []itSpec, menu []between) {
+	for _, a := range specs {
+		atOpen := m.scanOne(a)
+		for _, bt := range menu {
+			mm := m
+			if bt.kind == "write" {
+				mm = m.clone()
+				mm.do(bt.o)
+			}
+			wantA := mm.scanOne(a)
+			var gotA, gotB, wantB string
+			var h *pooled
+			rec, p := ev.Guard(func() {
+				var w *world
+				w, h = pooledWorld(init)
+				for _, pe := range path {
+					w.do(opTab[pe])
+				}
+				itA := w.open(a)
+				switch bt.kind {
+				case "tx.get":
+					_, _ = w.tx.Get([]byte(bt.key))
+				case "blk.get":
+					_, _ = w.blk.Get([]byte(bt.key))
+				case "write":
+					w.do(bt.o)
+				case "open":
+					itB := w.open(bt.sp)
+					wantB = mm.scanOne(bt.sp)
+					if bt.bFirst {
+						gotB = consume(itB)
+						gotA = consume(itA)
+					} else {
+						gotA = consume(itA)
+						gotB = consume(itB)
+					}
+					return
+				}
+				gotA = consume(itA)
+			})
+			lifeCases.Add(1)
+			evalCnt.Add(1)
+			detail := func(got, want string) map[string]any {
+				return map[string]any{"case": desc(init, path), "iterator": fmt.Sprintf("%s.NewIterator(%q)", a.layer, a.p),
+					"between_open_and_First": bt.String(), "got": got, "want": want}
+			}
+			if p {
+				r.Violation("iter-lifecycle:panic:"+a.layer+":after-"+bt.class(), map[string]any{"detail": detail("", ""), "panic": fmt.Sprint(rec)})
+				continue
+			}
+			putStore(init, h)
+			if gotA != wantA {
+				r.Violation("iter-lifecycle:"+a.layer+"-scan:after-"+bt.class()+":mismatch", detail(gotA, wantA))
+			}
+			if bt.kind == "open" {
+				class("lifecycle:two_iterators_open")
+				if gotB != wantB {
+					r.Violation("iter-lifecycle:second-iterator:"+bt.sp.layer+"-scan:mismatch", detail(gotB, wantB))
+				}
+			}
+			if wantA != "]" {
+				class("lifecycle:scan_nonempty")
+			}
+			if wantA != atOpen {
+				class("lifecycle:write_between_open_and_First_changes_scan")
+			}
+		}
+	}
+}
+
 // cstate is what the BFS keeps per frontier node: pre-load id, one byte per event, hash of the model contents.
 // Model and real objects are re-derived from it on demand (lead's memory bound: no live objects per node).
 type cstate struct {
@@ -488,7 +632,7 @@ func setAlphabet(ck []string) {
 	blkPrf = []string{"", pfx, pfx + "a", pfx + "ab", pfx + "b", "\x06", "\x07"}
 }
 
-func explore(tag string, ck []string, depth, scratchMaxDepth int, fullMenu bool, workers, maxFrontier int) exploreStats {
+func explore(tag string, ck []string, depth, scratchMaxDepth, lifeDepth int, fullMenu bool, workers, maxFrontier int) exploreStats {
 	setAlphabet(ck)
 	var events []string
 	var evOps []op
@@ -515,6 +659,32 @@ func explore(tag string, ck []string, depth, scratchMaxDepth int, fullMenu bool,
 	}
 	add(op{"blk", "CommitTo", "", ""})
 	add(op{"blk", "Reset", "", ""})
+
+	// iterator-lifecycle menu (see lifecycle())
+	var specs []itSpec
+	for _, p := range txPref {
+		specs = append(specs, itSpec{"tx", p})
+	}
+	for _, p := range blkPrf {
+		specs = append(specs, itSpec{"blk", p})
+	}
+	var btMenu []between
+	for _, k := range ckeys {
+		btMenu = append(btMenu, between{kind: "tx.get", key: k},
+			between{kind: "write", o: op{"tx", "put", k, "x"}}, between{kind: "write", o: op{"tx", "del", k, ""}})
+	}
+	for _, k := range rawAll {
+		btMenu = append(btMenu, between{kind: "blk.get", key: k},
+			between{kind: "write", o: op{"blk", "put", k, "yy"}}, between{kind: "write", o: op{"blk", "del", k, ""}})
+	}
+	btMenu = append(btMenu, between{kind: "write", o: op{"tx", "Commit", "", ""}})
+	second := specs
+	if !fullMenu { // quick: 6 of the 12 choices for the second iterator
+		second = []itSpec{{"tx", ""}, {"tx", "a"}, {"tx", "b"}, {"blk", pfx}, {"blk", pfx + "a"}, {"blk", "\x06"}}
+	}
+	for _, sp := range second {
+		btMenu = append(btMenu, between{kind: "open", sp: sp}, between{kind: "open", sp: sp, bFirst: true})
+	}
 
 	preload := func(mask uint16) map[string]string {
 		init := map[string]string{}
@@ -580,6 +750,9 @@ func explore(tag string, ck []string, depth, scratchMaxDepth int, fullMenu bool,
 				scratchSkipped.Add(1)
 			}
 			joinClasses(m)
+			if d <= lifeDepth {
+				lifecycle(init, m, path, specs, btMenu)
+			}
 			if d >= depth || perLevel[d] > maxFrontier {
 				return nil
 			}
@@ -688,6 +861,7 @@ func main() {
 	}
 	r.Require("blk_join:tombstone_over_store_key", "blk_join:both", "blk_join:tombstone_only", "blk_join:mem_only", "blk_join:store_only",
 		"tx_join:tombstone_over_lower_key", "tx_join:both", "tx_join:tombstone_only", "tx_join:mem_only", "tx_join:lower_only",
+		"lifecycle:two_iterators_open", "lifecycle:scan_nonempty", "lifecycle:write_between_open_and_First_changes_scan",
 		"key_in_all_three_layers", "commit_tx_nonempty", "commit_blk_nonempty", "reset_tx_nonempty", "reset_blk_nonempty",
 		"backend_error_surfaced")
 	// resource bounds: thorough <= 8 workers / 8 GiB, quick all cores / 4 GiB
@@ -700,12 +874,16 @@ func main() {
 
 	// brand-new leveldb + production 4 MiB overlay arena cost 2.5 ms (idle machine) to 15 ms (loaded) per state:
 	// done for every state up to scratchMaxDepth
+	lifeDepth := 2 // iterator-lifecycle cases are run from every state up to this depth
+	if v := os.Getenv("VERIF_C10_LIFEDEPTH"); v != "" {
+		fmt.Sscan(v, &lifeDepth)
+	}
 	var runs []exploreStats
 	base := []string{"a", "ab", "b"}
-	runs = append(runs, explore("base", base, r.QT(4, 6), r.QT(1, 3), r.Thorough(), workers, maxFrontier))
+	runs = append(runs, explore("base", base, r.QT(4, 6), r.QT(1, 3), lifeDepth, r.Thorough(), workers, maxFrontier))
 	if r.Thorough() {
 		// contract key "" -> raw key == the bare prefix byte 0x05 (lower edge of every storage scan)
-		runs = append(runs, explore("with-empty-contract-key", []string{"", "a", "ab", "b"}, 3, 2, true, workers, maxFrontier))
+		runs = append(runs, explore("with-empty-contract-key", []string{"", "a", "ab", "b"}, 3, 2, 1, true, workers, maxFrontier))
 	}
 	var st mc.Stats
 	var transTotal, scratchTotal int64
@@ -770,6 +948,9 @@ func main() {
 	r.Assume("goleveldb (in-memory storage) is a correct ordered store; the pooled store is wiped and reloaded between replays, and every new state up to the stated depth is additionally re-derived on brand-new production objects",
 		"writing an empty value is the code base's delete convention (MemDB header comment): it must read absent and be applied as a delete on commit")
 	r.Note("explorations", runNotes)
+	r.Note("iterator_lifecycle", map[string]any{"cases": lifeCases.Load(), "from_every_state_up_to_depth": lifeDepth,
+		"shape": "open iterator (12 layer/prefix choices) -> one of {tx.Get, blk.Get, tx Put/Delete, blk Put/Delete, tx.Commit, open second iterator (12 choices, either consumed first)} -> First..Next..Release",
+		"oracle": "scan == model scan at the time of First; no CommitTo/Reset while an iterator is open"})
 	r.Note("resource_bounds", map[string]any{"workers": workers, "mem_limit_gib": r.QT(4, 8), "max_frontier_states": maxFrontier})
 	pprof.StopCPUProfile()
 	flushCounters()
@@ -778,7 +959,7 @@ func main() {
 		"tx_scan_prefixes":  fmt.Sprintf("%q", txPref), "blk_scan_prefixes": fmt.Sprintf("%q", blkPrf),
 		"states":            st.States, "transitions": transTotal, "max_depth": st.MaxDepth,
 		"distinct_nontrivial":           st.States,
-		"traces_validated_against_impl": transTotal + scratchTotal,
+		"traces_validated_against_impl": transTotal + scratchTotal + lifeCases.Load(),
 		"error_stub_cases":              errCases,
 	})
 }
